@@ -186,6 +186,279 @@ def oracle_rt(ctx, stream, ids, inputs, obs):
     return n
 
 
+# ---------------------------------------------------------------- c22.hist: operation histories
+
+ZOPS = ("zmk", "zfmt", "zparse", "zrt", "zcmp", "zin", "zaddt", "zaddd", "tzname", "tzload")
+
+
+def unhex(h):
+    return "" if h == "-" else bytes.fromhex(h).decode("utf-8", "replace")
+
+
+HEXPOS = {"zparse": (1, 2), "zrt": (9,), "zfmt": (9,), "tzload": (1,), "parse": (1, 2), "fmt": (4,), "rt": (5,)}
+
+
+def show_op(inp):
+    """human-readable form of one history operation (hex operands decoded)"""
+    f = inp.split()
+    return " ".join(repr(unhex(x)) if k in HEXPOS.get(f[0], ()) else x for k, x in enumerate(f))
+
+
+def zfmt_class(fmt):
+    return "%:z" if "%:z" in fmt else ("%z" if "%z" in fmt else "no-offset")
+
+
+def hist_run(h, ops, env):
+    """run the operations, in this order, in ONE fresh harness process; returns the observations"""
+    import tempfile
+    with tempfile.NamedTemporaryFile("w", suffix=".txt", delete=False, dir=os.path.join(vlib.BUILD)) as fh:
+        for k, op in enumerate(ops):
+            fh.write("q%d\t%s\n" % (k, op))
+        path = fh.name
+    try:
+        rc, out = vlib.sh([h, "-n", "0", "-input", path], timeout=600, env=env)
+    finally:
+        os.unlink(path)
+    ids, inputs, obs = vlib.parse_case_lines(out)
+    if rc != 0 or len(ids) != len(ops):
+        return None, out
+    return [obs[i] for i in ids], out
+
+
+def hist_minimise(h, prefix, op, iso, env, budget=40):
+    """smallest (1-minimal up to the budget) subsequence of `prefix` after which `op` still does
+    not give its isolated result"""
+    def bad(p):
+        r, _ = hist_run(h, p + [op], env)
+        return r is not None and r[-1] != iso
+    cur = list(prefix)
+    n = 2
+    runs = 0
+    while len(cur) >= 1 and runs < budget:
+        chunk = max(1, len(cur) // n)
+        reduced = False
+        for st in range(0, len(cur), chunk):
+            cand = cur[:st] + cur[st + chunk:]
+            runs += 1
+            if bad(cand):
+                cur = cand
+                n = max(n - 1, 2)
+                reduced = True
+                break
+            if runs >= budget:
+                break
+        if not reduced:
+            if chunk == 1:
+                break
+            n = min(len(cur), n * 2)
+    return cur
+
+
+def zrt_expected(f):
+    """implementation-level property: what parse(format(dt)) must be, or None when the format
+    does not determine the value (year read with a 4 character budget, see below)"""
+    y, m, d, H, M, S, ns, off = map(int, f[1:9])
+    fmt = unhex(f[9])
+    if "%F" not in fmt:
+        i = max(fmt.find("%Y"), fmt.find("%-Y"), fmt.find("%_Y"))
+        if i < 0:
+            return None
+        j = fmt.index("Y", i) + 1
+        if j < len(fmt) and (fmt[j].isdigit() or (fmt[j] == "%" and fmt[j + 1:j + 2] not in ("%", "n", "t"))):
+            # another directive (or a digit) follows: the year is read with a budget of exactly 4 characters
+            if "%-Y" in fmt or not (0 <= y <= 9999):
+                return None
+        if y < 0 and "%_Y" in fmt:
+            return None
+    if "%S" not in fmt and "%T" not in fmt and "%-S" not in fmt and "%_S" not in fmt:
+        S = 0
+    if "%N" in fmt or "%9N" in fmt:
+        pass
+    elif "%L" in fmt:
+        ns = ns // 1000000 * 1000000
+    else:
+        ns = 0
+    return (y, m, d, H, M, S, ns, off)
+
+
+def hist_stream(ctx, h, m):
+    from concurrent.futures import ThreadPoolExecutor
+    stream = "c22.hist"
+    env = vlib.elk_env({"TZ": "UTC"})
+    nh, nops, niso = ctx.n(6, 40), ctx.n(500, 3000), ctx.n(4, 12)
+    rng = ctx.rng(stream)
+    histories = []          # (name, ops)
+    corpus = os.path.join(vlib.ROOT, "corpus", "C22.hist.txt")
+    if os.path.exists(corpus):
+        for ln, l in enumerate(open(corpus)):
+            l = l.strip()
+            if l and not l.startswith("#"):
+                histories.append(("corpus:%d" % (ln + 1), [o.strip() for o in l.split(";") if o.strip()]))
+    for k in range(nh):
+        rc, out = vlib.sh([h, "-extra", "histgen", "-seed", str((ctx.sseed(stream) + k) & 0x7FFFFFFFFFFFFFFF), "-n", str(nops)],
+                          timeout=600, env=env)
+        ids, inputs, _ = vlib.parse_case_lines(out)
+        if rc != 0 or not ids:
+            ctx.broke("stream %s: generator exited %d" % (stream, rc), out[-2000:])
+            return
+        histories.append(("gen:%d" % k, [inputs[i] for i in ids]))
+    # the model: every operation evaluated on its own
+    uniq = sorted({op for _, ops in histories for op in ops})
+    uid = {op: "u%d" % i for i, op in enumerate(uniq)}
+    rc, exp, mout = vlib.run_model(m, [uid[o] for o in uniq], {uid[o]: o for o in uniq})
+    if rc != 0:
+        ctx.broke("correspondence %s: model driver exited %d" % (stream, rc), mout[-3000:])
+        return
+    model = {o: exp.get(uid[o]) for o in uniq}
+    evals, dist, mism, orderdep, isochecked, skipped, nfail, zone_ops, signs = 0, {}, 0, 0, 0, 0, 0, 0, set()
+    reported = {}
+    samples = []
+
+    def report(key, what, **kw):
+        reported[key] = reported.get(key, 0) + 1
+        if reported[key] <= 3:
+            ctx.fail(key, what, stream=stream, **kw)
+
+    def isolated(op):
+        r, out = hist_run(h, [op], env)
+        return r[0] if r else "harness-failure"
+
+    for name, ops in histories:
+        orders = [("generated", list(range(len(ops))))]
+        perm = list(range(len(ops)))
+        rng.shuffle(perm)
+        orders.append(("shuffled", perm))
+        orders.append(("reversed", list(range(len(ops) - 1, -1, -1))))
+        if ctx.tier == "quick" and name.startswith("gen:"):
+            orders = orders[:2]
+        with ThreadPoolExecutor(3) as ex:
+            runs = list(ex.map(lambda o: hist_run(h, [ops[i] for i in o[1]], env), orders))
+        results = []    # per order: {op index: observed}
+        for (oname, order), (r, out) in zip(orders, runs):
+            if r is None:
+                ctx.broke("stream %s: harness failed on history %s (%s order)" % (stream, name, oname), out[-2000:])
+                return
+            results.append(dict(zip(order, r)))
+            evals += len(order)
+        if not samples and name.startswith("gen:"):
+            samples = [{"input": ops[i], "observed": results[0][i]} for i in (0, 1, len(ops) - 2, len(ops) - 1)]
+        for i, op in enumerate(ops):
+            k0 = op.split(" ", 1)[0]
+            dist[k0] = dist.get(k0, 0) + 1
+            if k0 in ZOPS:
+                zone_ops += 1
+                if k0 not in ("zparse", "tzload"):
+                    f = op.split()
+                    o = int(f[8]) if k0 not in ("tzname",) else int(f[1])
+                    if o:
+                        signs.add((abs(o), o > 0))
+        # fresh-process sample: the operation alone
+        pick = [rng.below(len(ops)) for _ in range(min(niso, len(ops)))] if name.startswith("gen:") else list(range(len(ops)))
+        with ThreadPoolExecutor(8) as ex:
+            iso_s = dict(zip(pick, ex.map(lambda i: isolated(ops[i]), pick)))
+        isochecked += len(iso_s)
+        for (oname, order), res in zip(orders, results):
+            pos = {i: p for p, i in enumerate(order)}
+            first_bad = None
+            for p, i in enumerate(order):
+                op, o = ops[i], res[i]
+                e = model[op]
+                ref = None
+                if e is None:
+                    ctx.broke("correspondence %s: model gave no answer for %s" % (stream, op))
+                    continue
+                if e == "skip":
+                    if oname == "generated":
+                        skipped += 1
+                    # implementation only: the same operation in another order / alone
+                    if i in iso_s and iso_s[i] != o:
+                        ref = iso_s[i]
+                    elif results[0][i] != o:
+                        ref = isolated(op)
+                        if ref == o:
+                            continue    # the generated order is the deviating one; reported there
+                    else:
+                        continue
+                elif e != o:
+                    ref = e
+                elif i in iso_s and iso_s[i] != e:
+                    # alone in a fresh process the implementation differs from the model
+                    mism += 1
+                    report(keyfn(op, iso_s[i], e) if op.split()[0] not in ZOPS else "model:%s" % op.split()[0],
+                           "%s (alone in a fresh process): implementation %s, model %s" % (show_op(op), iso_s[i], e),
+                           case=op, impl=iso_s[i], model=e, oracle="implementation differs from the proved model")
+                    continue
+                else:
+                    continue
+                if first_bad is None:
+                    first_bad = p
+                k0 = op.split()[0]
+                iso = iso_s[i] if i in iso_s else (isolated(op) if reported.get("pending:" + k0, 0) < 6 else None)
+                reported["pending:" + k0] = reported.get("pending:" + k0, 0) + 1
+                if iso is None:
+                    orderdep += 1
+                    continue
+                if iso == o:
+                    # not a matter of history: plain disagreement with the model
+                    mism += 1
+                    key = keyfn(op, o, e) if k0 not in ZOPS else "model:%s:%s" % (k0, zfmt_class(unhex(op.split()[9 if k0 in ("zrt", "zfmt") else 1])) if k0 in ("zrt", "zfmt", "zparse") else "-")
+                    report(key, "%s: implementation %s (also alone in a fresh process), model %s" % (show_op(op), o, e),
+                           case=op, impl=o, model=e, oracle="implementation differs from the proved model")
+                    continue
+                orderdep += 1
+                hkey = "history:%s" % k0
+                bkey = hkey + (":min:gen" if name.startswith("gen:") else ":min:corpus")
+                if reported.get(bkey, 0) < 2:
+                    reported[bkey] = reported.get(bkey, 0) + 1
+                    mini = hist_minimise(h, [ops[j] for j in order[:p]], op, iso, env)
+                else:
+                    mini = None
+                if mini is not None:
+                    cls = "+".join(sorted({x.split()[0] for x in mini})) or "nothing"
+                    key = "history:%s:result-depends-on-earlier:%s" % (k0, cls)
+                    what = ("in ONE process, after [%s] the operation %s gives %s; alone in a fresh process it gives %s%s" % (
+                        " ; ".join(show_op(x) for x in mini[:6]) + (" ; ... (%d operations)" % len(mini) if len(mini) > 6 else ""),
+                        show_op(op), o, iso, "" if e == "skip" else " (model: %s)" % e))
+                    report(key, what, case=" ; ".join(mini + [op]), impl=o, model=None if e == "skip" else e,
+                           oracle="results must not depend on the history: same operation in a fresh process / on the proved, stateless model")
+                else:
+                    reported[hkey + ":more"] = reported.get(hkey + ":more", 0) + 1
+        # implementation-level round trip property on the generated order
+        for i, op in enumerate(ops):
+            f = op.split()
+            if f[0] != "zrt":
+                continue
+            o = results[0][i]
+            want = zrt_expected(f)
+            if want is None:
+                continue
+            lossless = want == tuple(map(int, f[1:9]))
+            g = o.split()
+            ok = g[0] == "ok" and tuple(map(int, g[1:9])) == want and (not lossless or g[-1] == "eq")
+            if not ok and model[op] == o:
+                # same on the stateless model: the format itself does not round-trip
+                nfail += 1
+                report("zrt:%s:year-%s" % (zfmt_class(unhex(f[9])), ycls(int(f[1]))),
+                       "DateTime(%s) formatted with %r parses back as %s" % (" ".join(f[1:9]), unhex(f[9]), o),
+                       case=op, impl=o, model=model[op], oracle="round trip evaluated on the implementation's output")
+        nd = oracle_dates(ctx, stream, list(range(len(ops))), ops, results[0]) if name.startswith("gen:") else 0
+        nfail += nd
+    both = len({a for a, s in signs if (a, not s) in signs})
+    ctx.stream(stream, evals, len(uniq),
+               "histories = seeded operation sequences, each order run in ONE harness process (generated order, seeded shuffle"
+               "%s), plus corpus histories and a fresh-process sample: Date operations of c22.dates mixed with DateTime operations in "
+               "fixed-offset zones (per-history pool of 4..14 offset magnitudes from -12:00..+14:00 whole/half/quarter hours and arbitrary "
+               "minutes < 24 h, BOTH signs of every magnitude): construct, strftime, DateTime.parse of independently written and mutated "
+               "texts, format/parse round trip (default format and combinations of %%Y %%m %%d %%F %%j, %%H %%M %%S %%T %%R %%L %%N %%9N, %%z %%:z), "
+               "compare, in_zone, + Time::Span, + Date::Span, Timezone.from_offset name, Timezone lookup by name; every operation's result "
+               "must equal the extracted stateless model's (tzname/tzload: the other orders' and the fresh-process result); distinct by operation"
+               % ("" if ctx.tier == "quick" else ", reversed"),
+               samples, dist, mismatches=mism, history_dependent_results=orderdep, model_skipped=skipped,
+               fresh_process_checks=isochecked, histories=len(histories), zone_operations=zone_ops,
+               offset_magnitudes_seen_with_both_signs=both, property_oracle_failures=nfail,
+               not_minimised={k: v for k, v in reported.items() if k.endswith(":more")})
+
+
 def nontrivial(inp, obs):
     f = inp.split()
     if f[0] in ("add", "sub"):
@@ -205,12 +478,25 @@ def run(ctx):
         "(fixes/C22-week-numbers.patch only concerns the unmodelled %U %W %V directives of stream c22.rt). Differential only: that Go's time package "
         "normalises as modelled, all other format strings (c22.dates compares Format/ParseDate with the model on the numeric "
         "directives; c22.rt checks name/week directives, DateTime and span strings on the implementation only). "
-        "DateTime arithmetic, time zones and Time::Span are not modelled.")
+        "Second pass (Model/C22_Zone.v): DateTime in FIXED-OFFSET zones = civil fields + offset, instant = fields - offset; proved: "
+        "the text Format prints for `%z`/`%:z` is parsed back as exactly that offset for every whole-minute offset strictly inside "
+        "(-24 h, +24 h), both signs, and DateTime.parse(dt.to_string) = dt (all fields, nanoseconds, offset) for every valid DateTime "
+        "with a representable year (C22_offset_format_parse); a process-wide memo table for parsed offsets leaves every history's "
+        "results equal to the isolated results iff-style: proved for every key that determines the offset, refuted for a key of "
+        "absolute hours/minutes (C22_history_independent, C22_history_unsigned_key_refuted). Stream c22.hist treats SEQUENCES of "
+        "operations in one process as the input: every operation's result in every order must equal the stateless extracted model's "
+        "(construct, strftime, DateTime.parse, round trip, compare, in_zone, + Time::Span, + Date::Span in fixed-offset zones; Date "
+        "operations mixed in) and, for Timezone name/lookup (not modelled), the other orders' and a fresh process's result. "
+        "Not modelled: IANA/local zones (DST), %Z names, 12-hour clock, sub-nanosecond and unix-time directives, DateTime::Span "
+        "differences; offsets with seconds are outside the stream (the offset directives cannot express them).")
     ctx.trusted_base += [
         "Go time package modelled as: time.Date normalises months then adds days on the proleptic Gregorian day line; "
         "AddDate(0,0,n) likewise (go_date/go_add_days) - validated by c22.dates, not proved",
         "fmt %d/%0Nd/%Nd modelled by fmt_num; timescanner tokenisation of the modelled directives re-implemented in ocaml/C22/main.ml",
         "local time zone of the check process has no midnight gaps (UTC here): Date goes through time.Local",
+        "c22.hist: Go's time.Date / Time.In / Time.Add / Time.Compare in time.FixedZone locations modelled by mk_dt/of_local/in_zone/"
+        "add_time/zcmp (validated by the stream, not proved); the DateTime format tokeniser is re-implemented in ocaml/C22/main.ml; "
+        "history independence of the implementation is tested on seeded histories (2-3 orders + fresh-process sample), not proved about the Go code",
     ]
     ctx.run_proof_gate()
     h = vlib.build_harness("c22")
@@ -254,6 +540,7 @@ def run(ctx):
         ctx.stream(stream, len(ids), len(distinct), rule,
                    [{"input": inputs[i], "observed": obs[i]} for i in ids[:2] + ids[-2:]], dist,
                    mismatches=mism, model_skipped=skipped, property_oracle_failures=nf)
+    hist_stream(ctx, h, m)
     # implementation-only round trips for the directives outside the model
     cmd = [h, "-seed", str(ctx.sseed("c22.rt")), "-n", str(ctx.n(3000, 200000)), "-tier", ctx.tier, "-extra", "rt"]
     corpus = os.path.join(vlib.ROOT, "corpus", "C22.rt.txt")
